@@ -6271,7 +6271,11 @@ class PyCdlib:
         if not self._initialized:
             raise pycdlibexception.PyCdlibInvalidInput('This object is not initialized; call either open() or new() to create an ISO')
 
-        self._reshuffle_extents()
+        # Without pending changes the metadata is consistent as it is; in
+        # particular the layout of an ISO that was just opened is the one on
+        # disk, which in-place modification relies on.
+        if self._needs_reshuffle:
+            self._reshuffle_extents()
 
     def set_relocated_name(self, name, rr_name):
         # type: (str, str) -> None
